@@ -40,6 +40,10 @@ type Case struct {
 	// Instances > 1: that many plugin instances are started on the SAME parsed configuration, one after the
 	// other (a pipeline starts one instance per processor on one config object); the last one processes the events
 	Instances int `json:"instances,omitempty"`
+	// StopFirst: the plugin's Stop was called before the last event is processed. Pipeline.Stop calls
+	// the actions' Stop first, while the processors are still running and the input and the output
+	// still work, so events are processed, delivered and committed after it.
+	StopFirst bool `json:"stop_first,omitempty"`
 }
 
 // ---------------------------------------------------------------- selector syntax (reference)
@@ -259,6 +263,7 @@ func gen(t *rapid.T) Case {
 	if rapid.IntRange(0, 3).Draw(t, "instances") == 0 {
 		c.Instances = rapid.IntRange(2, 3).Draw(t, "ninstances")
 	}
+	c.StopFirst = rapid.IntRange(0, 7).Draw(t, "stopFirst") == 0
 	return c
 }
 
@@ -424,7 +429,7 @@ func pluginInfo(name string) *pipeline.PluginStaticInfo {
 
 // runPlugin configures a fresh plugin instance with fields and applies it to the
 // documents one after the other. rejected != "" means the configuration was refused.
-func runPlugin(plugin string, docs []string, fields []string, instances int) (outs []string, rejected string, err error) {
+func runPlugin(plugin string, docs []string, fields []string, instances int, stopFirst bool) (outs []string, rejected string, err error) {
 	info := pluginInfo(plugin)
 	cj, _ := json.Marshal(map[string]any{"fields": fields})
 	config, cerr := pipeline.GetConfig(info, cj, map[string]int{"capacity": 64, "gomaxprocs": 1})
@@ -445,9 +450,15 @@ func runPlugin(plugin string, docs []string, fields []string, instances int) (ou
 			}
 			panic(rec)
 		}
+		if i == max(1, instances)-1 && stopFirst {
+			break // stopped below, before the last event
+		}
 		defer ap.Stop()
 	}
-	for _, doc := range docs {
+	for i, doc := range docs {
+		if stopFirst && i == len(docs)-1 {
+			ap.Stop()
+		}
 		root, derr := fdkit.NewRoot(doc)
 		if derr != nil {
 			return nil, "", fmt.Errorf("document not decodable: %w", derr)
@@ -509,11 +520,14 @@ func run(c Case) *vkit.Outcome {
 			o.Class("instance-reused")
 		}
 	}
+	if c.StopFirst {
+		o.Class("processed-after-the-actions-were-stopped")
+	}
 
 	// check runs a fresh instance over docs and compares every event with the
 	// model; returns the parsed last event (nil if unusable).
 	check := func(which string, fields []string) *vkit.JNode {
-		outs, rejected, err := runPlugin(c.Plugin, docs, fields, c.Instances)
+		outs, rejected, err := runPlugin(c.Plugin, docs, fields, c.Instances, c.StopFirst)
 		if err != nil {
 			o.Failf(P, c.Plugin+":do-failed", "%s list %q: %v", which, fields, err)
 			return nil
